@@ -289,16 +289,57 @@ CLAIMED = {
         'Third-party message text and the correctness of is_exposed are '
         'not decided.',
         'DESIGN.md section 5, C20'),
+    'C11': (
+        'value identity on symbolic terms over reaching definitions, '
+        'polynomial / rational normal forms for arithmetic identities, '
+        'CFG must-pass-through for guards, sibling agreement of the two '
+        'marker routes, parameter forwarding along the call chain',
+        'Decides the structural part of each clause, not the numbers: the '
+        'Welch statistic is (mean1 - mean2) / sqrt(var1/n1 + var2/n2) and '
+        'the degrees of freedom the Welch-Satterthwaite quotient (compared '
+        'as rational functions); the p-value is two-sided with non-finite '
+        'CDF values replaced by 0.5; Holm multiplies the k-th smallest of '
+        'm p-values by m - k + 1 (m including the hypotheses the '
+        'restricted variant leaves out), takes the running maximum, puts '
+        'the values back through the sorting permutation and caps at 1; '
+        'both routes skip pairs with a cluster of fewer than two cells; '
+        'validity is (corrected p < the threshold they were corrected '
+        'for) AND penetrance; direction comes from the same comparison of '
+        'the two means in both routes and the up / down sets are '
+        'complementary within the valid set; strict thresholds use >, '
+        'floors <, floors are applied last; a gene list masks both '
+        'routes; the gene-major table is the on-disk transpose of the '
+        'pair-major table of the same direction; thresholds are forwarded '
+        'at every call. Summary statistics, penetrance fractions and the '
+        'resulting marker sets are values and are not decided: a pass '
+        'does not establish soundness or completeness. Independence of '
+        'worker count and memory budget is decided under C04.',
+        'DESIGN.md section 5 (C11) and section 6'),
+    'C12': (
+        'CFG must-pass-through of the exits of the greedy loop, value '
+        'identity on symbolic terms, loop-coverage, provenance of the '
+        'table and pair list handed to the selection, parameter forwarding',
+        'Decides the structural part of each clause, not the terminal '
+        'state of the greedy loop for a given table: the loop leaves only '
+        'when no gene has utility left or every (pair, direction) slot is '
+        'filled, both tested after the state update of the same turn, and '
+        'every other turn selects a gene; a slot is declared filled only '
+        'when it holds the target where both directions could reach it, '
+        'when it holds every marker of its census, or when the pair holds '
+        'twice the target; a selected gene is struck from the utility, '
+        'recorded, named by its own index and never selected again; pairs '
+        'with at most the target number of markers are exhausted up '
+        'front; selection runs on the table thinned to the query genes '
+        'and on exactly the pairs leaves_to_compare lists for the parent; '
+        'up / down markers are counted in the columns the bookkeeping '
+        'reads; a parent without pairs gets the empty list; per-parent '
+        'overrides reach that parent\'s worker. Whether a given marker '
+        'table ends up covered is a fact about values and is not '
+        'decided. Independence of worker count is decided under C04.',
+        'DESIGN.md section 5 (C12) and section 6'),
 }
 
 NOT_APPLICABLE = {
-    'C11': 'soundness/completeness against an independent Welch/Holm/'
-           'penetrance computation is a statement about floating-point '
-           'values per pair x gene; merge order / worker independence is '
-           'decided under C04.',
-    'C12': 'the coverage guarantee is the terminal-state invariant of a '
-           'greedy loop over runtime arrays; needs a value-level loop '
-           'invariant (proof or run), not a dataflow fact.',
 }
 
 PENDING_REASON = ('static check designed (DESIGN.md section 5) but not yet '
